@@ -276,8 +276,11 @@ impl Evaluator {
         };
 
         // If the king can move, we're definitely not in checkmate or stalemate, so we can
-        // skip the expensive check for checkmate or stalemate through move generation
-        if !king_has_move {
+        // skip the expensive check for checkmate or stalemate through move generation.
+        // This only holds when the king is not in check: the attack map is computed with the
+        // king on the board, so a square behind a checked king on the checking slider's ray
+        // looks safe although the king cannot step there.
+        if !king_has_move || state.is_check() {
             let legal_moves = MoveGenerator::compute_legal_moves(state);
             if legal_moves.is_empty() && state.is_check() {
                 return if state.turn_to_move() == perspective {
